@@ -58,7 +58,7 @@ func limbsOf(bs []int) []uint64 {
 	return l
 }
 
-func bytesOf(l []uint64) []int {
+func bytesOf20(l []uint64) []int {
 	out := make([]int, 8*len(l))
 	for i := range out {
 		out[i] = int(l[i/8] >> (8 * uint(i%8)) & 0xff)
@@ -108,7 +108,7 @@ type fpNum[T obifp.Uint64 | obifp.Uint128 | obifp.Uint256] interface {
 	VerifLimbs() []uint64
 }
 
-func val[T fpNum[T]](x T) []int { return bytesOf(x.VerifLimbs()) }
+func val[T fpNum[T]](x T) []int { return bytesOf20(x.VerifLimbs()) }
 
 // arith runs an operation that may signal overflow by panicking.
 func arith[T fpNum[T]](o map[string][]int, name string, f func() T) {
@@ -127,16 +127,16 @@ func obsUn[T fpNum[T]](x T, a []int) map[string][]int {
 	o := map[string][]int{}
 	o["not"] = val(x.Not())
 	o["isz"] = flag(x.IsZero())
-	o["lo64"] = bytesOf([]uint64{x.AsUint64()})
+	o["lo64"] = bytesOf20([]uint64{x.AsUint64()})
 	o["set64"] = val(x.Set64(lo))
 	o["from64"] = val(obifp.From64[T](lo))
 	o["zero"] = val(x.Zero())
 	o["zerou"] = val(obifp.ZeroUint[T]())
 	o["max"] = val(x.MaxValue())
 	o["one"] = val(obifp.OneUint[T]())
-	o["c64"] = bytesOf(x.Uint64().VerifLimbs())
-	o["c128"] = bytesOf(x.Uint128().VerifLimbs())
-	o["c256"] = bytesOf(x.Uint256().VerifLimbs())
+	o["c64"] = bytesOf20(x.Uint64().VerifLimbs())
+	o["c128"] = bytesOf20(x.Uint128().VerifLimbs())
+	o["c256"] = bytesOf20(x.Uint256().VerifLimbs())
 	return o
 }
 
@@ -231,9 +231,9 @@ func obsDiv(a, b []int) (o map[string][]int, skipped bool) {
 			run(func() { set("mr", val(x.Mod(y))) })
 			if fits64(b) {
 				v := limbsOf(b)[0]
-				run(func() { q, r := x.QuoRem64(v); set("q64", val(q)); set("r64", bytesOf([]uint64{r})) })
+				run(func() { q, r := x.QuoRem64(v); set("q64", val(q)); set("r64", bytesOf20([]uint64{r})) })
 				run(func() { set("d64", val(x.Div64(v))) })
-				run(func() { set("m64", bytesOf([]uint64{x.Mod64(v)})) })
+				run(func() { set("m64", bytesOf20([]uint64{x.Mod64(v)})) })
 			}
 		case 32:
 			x, y := mk256(a), mk256(b)
@@ -258,7 +258,7 @@ func obsDiv(a, b []int) (o map[string][]int, skipped bool) {
 func obsU64x(a, b []int, n int) map[string][]int {
 	x, y := mk64(a), mk64(b)
 	cin := limbsOf(b)[0]
-	w := func(v uint64) []int { return bytesOf([]uint64{v}) }
+	w := func(v uint64) []int { return bytesOf20([]uint64{v}) }
 	o := map[string][]int{}
 	lv, lc := x.LeftShift64(uint(n), cin)
 	rv, rc := x.RightShift64(uint(n), cin)
@@ -583,7 +583,7 @@ func randOperand(r *rand.Rand, k int, bl int) []int {
 	case 5: // low part only (fits 64 bits), any length
 		l[0] = r.Uint64() >> uint(r.Intn(64))
 	}
-	return bytesOf(l)
+	return bytesOf20(l)
 }
 
 func recordC20(env *Env) {
